@@ -6,7 +6,7 @@ import (
 )
 
 // C05_route_server: a connection that joined a symbolic subset of {/, /a}; a packet of ANY type addressed to /, /a,
-// /b (existing but not joined), /zz (not existing), '' or a SYMBOLIC name "/"+x arrives. It is dispatched only to the socket of exactly that
+// /b (existing but not joined), /zz (not existing), ” or a SYMBOLIC name "/"+x arrives. It is dispatched only to the socket of exactly that
 // namespace; a non-CONNECT packet for a namespace without a socket, or a CONNECT for one already joined, closes the
 // connection and is dispatched to nobody; a CONNECT for an existing unjoined namespace attaches the client there and
 // nowhere else.
